@@ -287,15 +287,16 @@ def run_gruneisen(spec):
     fmax = max(float(np.abs(f).max()), 0.05 * fscale)
 
     def clean_modes(ff):
-        """True for modes whose cluster of near neighbours (chained, < 2% of the frequency scale) is either a singleton
-        or exactly degenerate: near-degenerate clusters are outside the statement's domain ('away from degeneracies')."""
+        """True for modes whose cluster of near neighbours (chained gaps < 5e-3 THz, i.e. inside or next to the code's own degeneracy
+        tolerance of 1e-4 x unit factor = 1.6e-3 THz) is either a singleton or exactly degenerate. (Until fix F-aa the tolerance was
+        applied to eigenvalues and this filter had been widened to 2 % of the spectrum - which hid that defect.)"""
         okm = np.zeros(ff.shape, dtype=bool)
         for i in range(ff.shape[0]):
             order = np.argsort(ff[i])
             srt = ff[i][order]
             start = 0
             for k in range(1, len(srt) + 1):
-                if k == len(srt) or srt[k] - srt[k - 1] > 2e-2 * fmax:
+                if k == len(srt) or srt[k] - srt[k - 1] > 5e-3:  # THz: three times the code's degeneracy tolerance 1e-4 x unit factor
                     if srt[k - 1] - srt[start] < 1e-7 * fmax:
                         okm[i, order[start:k]] = True
                     start = k
